@@ -221,6 +221,16 @@ pub fn jobs_for(prop: &str, thorough: bool) -> Vec<Job> {
                     c.policy = 255;
                     js.push(job(s, label, c, None, 2000));
                 }
+                if s != "MV" {
+                    // observers fed along adversarial per-actor-ordered extensions: many pending removes at once
+                    let mut c = Cfg::base(3, 16, Delivery::Causal, mon::CTX);
+                    c.nobs = 2;
+                    c.anyk = !MAPS.contains(&s);
+                    c.policy = 255;
+                    let mut swp = sw(10, Delivery::Fifo, 2).unwrap();
+                    swp.merges = true;
+                    js.push(job(s, "observer sweep along adversarial FIFO extensions", c, Some(swp), 800));
+                }
             }
         }
         "C08" => {
@@ -328,6 +338,16 @@ pub fn jobs_for(prop: &str, thorough: bool) -> Vec<Job> {
                     c.policy = 255;
                     js.push(job(s, label, c, None, 1200));
                 }
+            }
+            for s in ["OS", "MO", "MM", "MMO", "MMM", "MK", "VC"] {
+                // observers along adversarial extensions of the weakest discipline: validate_op probed at states
+                // holding many pending removes / orphans
+                let mut c = Cfg::base(3, 16, Delivery::Causal, mon::VOP);
+                c.nobs = 2;
+                c.policy = 255;
+                let mut swp = sw(10, weakest(s), 2).unwrap();
+                swp.merges = s != "MK";
+                js.push(job(s, "observer sweep along adversarial extensions of the weakest discipline", c, Some(swp), 800));
             }
             let mut c = Cfg::base(3, 16, Delivery::Any, mon::VOP);
             c.misuse = true;
